@@ -4,5 +4,5 @@ func init() {
 	property("C01",
 		"Static conformance of the lowering code to the chunk scheme (DESIGN §4 C01): exhaustive statement dispatch, statement conservation at every finalisation, fresh unique chunk ids, every chunk enqueued/finalised exactly once, return-point threading templates of every constructor (value-origin terms), the branch protocol of the five renderers, the end/return early exit, and the parsers of if / while / do-while keeping every branch and body they parse (C01.h). These are the induction hypotheses of the paper scheme argument; behavioural equivalence itself is not decided. Also: every per-element chunk is made in every iteration (C01.d), the entry chunk holds the whole body (C01.b), a break destination is only stored in a descriptor that is rendered with a -1 test (C04.c), running off a branch writes return (C01.f), conditions are required outside while (C01.e), Emit is total (C10.f).",
 		[]string{"scheme argument of DESIGN §4 C01 (paper, not machine-checked)", "a rendered switch chunk is never the last chunk of either order (exemption for switchBranch.destChunkID)", "go/ssa lowering is faithful to the source"},
-		"C01.a", "C01.b", "C01.c", "C01.d", "C01.e", "C01.f", "C01.g", "C01.h", "C02.i", "C10.e", "C20.a", "C02.g", "C05.a", "C02.d", "C10.f", "C04.c", "C20.b", "C08.e", "C10.g", "C18.m", "C19.d")
+		"C01.a", "C01.b", "C01.c", "C01.d", "C01.e", "C01.f", "C01.g", "C01.h", "C02.i", "C10.e", "C20.a", "C02.g", "C05.a", "C02.d", "C10.f", "C04.c", "C20.b", "C08.e", "C10.g", "C18.m", "C19.d", "C18.d", "C18.n")
 }
